@@ -23,13 +23,15 @@
    judges the spec's own prediction (ConfigLocGen) and the real code (ConfigLocTrace). *)
 EXTENDS Naturals, Sequences, FiniteSets, TLC
 
-SecSegs == {"a", "b", "*", "a*"}        \* components of section names
+SecSegs == {"a", "b", "*", "a*", "a*b*"} \* components of section names ("a*b*": a one-component name can be a longer
+                                         \* string than a two-component one - specificity counts components, not characters)
 LocSegs == {"a", "b", "ab"}             \* components of locations
 SeqsFromTo(S, lo, hi) == UNION {[1..k -> S] : k \in lo..hi}
 Drop(s, k) == SubSeq(s, k + 1, Len(s))
 
 \* fnmatch of one component over this alphabet
-SegMatch(pat, seg) == CASE pat = "*" -> TRUE [] pat = "a*" -> seg \in {"a", "ab"} [] OTHER -> pat = seg
+SegMatch(pat, seg) == CASE pat = "*" -> TRUE [] pat = "a*" -> seg \in {"a", "ab"} [] pat = "a*b*" -> seg = "ab"
+                        [] OTHER -> pat = seg
 
 (* a section: [path, trail, opt, ign]
      path  : its name "/" + segments joined by "/" (+ "/" when trail)
@@ -40,14 +42,15 @@ SegMatch(pat, seg) == CASE pat = "*" -> TRUE [] pat = "a*" -> seg \in {"a", "ab"
                                                       "basename" - o = n<k>/{basename}
              (k = index of the section in secs, which makes the source of a value recognisable; the order of
               the sections in the file is chosen by the harness and must not matter)
-     ign   : "absent" | "true" | "false"  (ignore_parents)                                                 *)
+     ign   : "absent" | "true" | "false"  (ignore_parents; "false" means the same as absent)                                                 *)
 Applies(sec, loc) == Len(sec.path) <= Len(loc) /\ \A q \in 1..Len(sec.path) : SegMatch(sec.path[q], loc[q])
 Extra(sec, loc)   == Drop(loc, Len(sec.path))
 Defines(sec)      == sec.opt # "none"
 Ignores(sec)      == sec.ign = "true"
 
 \* the section name as characters, for the implementation's tie-break (string comparison of names)
-SegChars(seg) == CASE seg = "a*" -> <<"a", "*">> [] seg = "ab" -> <<"a", "b">> [] OTHER -> <<seg>>
+SegChars(seg) == CASE seg = "a*" -> <<"a", "*">> [] seg = "ab" -> <<"a", "b">> [] seg = "a*b*" -> <<"a", "*", "b", "*">>
+                   [] OTHER -> <<seg>>
 RECURSIVE PathChars(_)
 PathChars(p) == IF p = <<>> THEN <<>> ELSE <<"/">> \o SegChars(Head(p)) \o PathChars(Tail(p))
 IdChars(sec) == PathChars(sec.path) \o (IF sec.trail THEN <<"/">> ELSE <<>>)
